@@ -425,7 +425,14 @@ class AdjointTask(Task):
             X, Y = np.asarray(mx[0]), np.asarray(my[0])
             lhs = tr(dagger(Ls) @ X)
             rhs = tr(dagger(Y) @ L)
-            goal = lift(lhs).eq_solver(rhs)
+            # Lagrangian duality also ties the constants: the operator of the primal objective Re<C, X> is the constant of the dual
+            # constraint (C = -sign * D(0)), and the right-hand side R of the primal equality (R = -Xi(0)) is the operator of the
+            # dual objective Re<R, Y>
+            C = -self.sign * np.asarray(De0)
+            Rr = -np.asarray(Pe0)
+            obj_p = lift(np.asarray(P.objective, dtype=object).flat[0])
+            obj_d = lift(np.asarray(D.objective, dtype=object).flat[0])
+            goal = lift(lhs).eq_solver(rhs) & obj_p.eq_solver(lift(tr(dagger(C) @ X)).real) & obj_d.eq_solver(lift(tr(dagger(Rr) @ Y)).real)
             r, m = ctx.check([core_not(goal)])
             # constants: primal rhs must be the identity the dual's objective pairs with; dual constant must be -+ Q of the primal objective
             bad = lift(lhs).eq_solver(rhs + 1)
@@ -451,6 +458,78 @@ class AdjointTask(Task):
         return abs(a - d) <= 2e-4
 
 
+class DualityTask(Task):
+    """T2 for block programs: the captured dual is the Lagrange dual of the captured primal.
+        primal:  opt Re sum_i <C_i, X_i>   s.t.  sum_i A_i(X_i) = R,  X_i >= 0          (opt = max or min)
+        dual:    opt' Re <R, Y>            s.t.  +-(A_i^*(Y) - C_i) >= 0 for every i    (opt' = min or max)
+    decided for symbolic Hermitian X_i, Y: sum_i <A_i^*(Y), X_i> = <Y, sum_i A_i(X_i)>, the constants C_i and R of one program are the
+    operators of the other one's objective, the senses are opposite.  Independent of the harness' textbook references (both sides
+    are captured from the real code)."""
+    engine = "E2-sdpcap (T2 Lagrangian pairing in z3)"
+    weight = 15
+
+    def __init__(self, name, cfg, call_primal, call_dual, value_of=None):
+        super().__init__(name, cfg)
+        self.cp, self.cd = call_primal, call_dual
+        self.value_of = value_of or (lambda r: float(np.real(r[0] if isinstance(r, tuple) else r)))
+
+    def _run(self, rec, seed):
+        pp = extract(capture_call(self.cp))
+        pd = extract(capture_call(self.cd))
+        rec["programs"] = 2
+        ctx = Ctx("lra", self.name)
+        with use_ctx(ctx):
+            b = Builder(ctx)
+            mx, cx = sym_variables(b, pp.vars, "x")
+            my, cy = sym_variables(b, pd.vars, "y")
+            P, D = program_to_sym(pp, cx), program_to_sym(pd, cy)
+            P0 = program_to_sym(pp, [[lift(0)] * len(c) for c in cx])
+            D0 = program_to_sym(pd, [[lift(0)] * len(c) for c in cy])
+            eqs = [(E, E0) for (k, E), (_, E0) in zip(P.constraints, P0.constraints) if k == "eq"]
+            psds = [(E, E0) for (k, E), (_, E0) in zip(D.constraints, D0.constraints) if k == "psd"]
+            ok_shape = len(eqs) == 1 and len(my) == 1 and len(psds) == len(mx) and P.sense != D.sense
+            r = r2 = "n/a"
+            if ok_shape:
+                s_ = 1 if P.sense == "max" else -1
+                Pe, Pe0 = eqs[0]
+                L, Rr = np.asarray(Pe) - np.asarray(Pe0), -np.asarray(Pe0)
+                Y = np.asarray(my[0])
+                lhs, objp = 0, 0
+                for X, (De, De0) in zip(mx, psds):
+                    X = np.asarray(X)
+                    lhs = lhs + tr(dagger(s_ * (np.asarray(De) - np.asarray(De0))) @ X)
+                    objp = objp + tr(dagger(-s_ * np.asarray(De0)) @ X)
+                rhs = tr(dagger(Y) @ L)
+                obj_p = lift(np.asarray(P.objective, dtype=object).flat[0])
+                obj_d = lift(np.asarray(D.objective, dtype=object).flat[0])
+                goal = lift(lhs).eq_solver(rhs) & obj_p.eq_solver(lift(objp).real) & obj_d.eq_solver(lift(tr(dagger(Rr) @ Y)).real)
+                r, _ = ctx.check([core_not(goal)])
+                r2, _ = ctx.check([core_not(lift(lhs).eq_solver(rhs + 1))])
+            rec["queries"], rec["solver_s"] = ctx.queries, round(ctx.solver_s, 3)
+            rec["neg_control"], rec["reachable"] = r2 == "sat", True
+        if ok_shape and r == "unsat" and r2 == "sat":
+            rec["status"] = "discharged"
+            return
+        rec["notes"].append("programs are not a primal / dual pair of the block form" if not ok_shape else f"Lagrangian identities: {r}")
+        rec["disagreements_checked"] = 1
+        try:
+            a, d = self.value_of(self.cp()), self.value_of(self.cd())
+        except (ArithmeticError, ZeroDivisionError) as e:
+            rec["notes"].append(f"replay: conic solver breakdown ({type(e).__name__})")
+            return
+        if abs(a - d) > 2e-4:
+            rec["status"] = "violation"
+            rec["violation"] = {"source": "the dual program is not the Lagrange dual of the primal program; the optima differ with the real solver",
+                                "inputs": jsonable(self.cfg), "actual": {"primal": a, "dual": d}, "expected": "equal optima"}
+        else:
+            rec["notes"].append(f"optima agree on this instance ({a:.6f} vs {d:.6f})")
+
+    def replay(self, rp):
+        a, d = self.value_of(self.cp()), self.value_of(self.cd())
+        print({"primal": a, "dual": d})
+        return abs(a - d) <= 2e-4
+
+
 def core_not(b):
     from symnp.core import as_z3
     return as_z3(~SymBool(b))
@@ -460,6 +539,8 @@ def core_not(b):
 def clone_states(kind):
     if kind == "bb84":
         return [np.array([[1.0], [0]]), np.array([[0.0], [1]]), np.array([[0.5], [0.5]]), np.array([[0.5], [-0.5]])], [0.25] * 4
+    if kind == "three kets not closed under conjugation":      # |0>, |+>, |+i> (un-normalised, dyadic)
+        return [np.array([[1], [0j]]), np.array([[0.5], [0.5 + 0j]]), np.array([[0.5], [0.5j]])], [0.5, 0.25, 0.25]
     if kind == "real first, complex second":     # mixed storage: the first ket is a float array
         return [np.array([[1.0], [0.5]]), np.array([[0.5], [0.25 - 0.5j]])], [0.25, 0.75]
     return [np.array([[1], [0.5j]]), np.array([[0.5], [0.25 - 0.5j]])], [0.75, 0.25]
@@ -496,7 +577,11 @@ def ref_clone(n, form):
         Qs = snap(Q)
         if form == "primal":
             X = Vm.herm(0)
-            sysl = [e - 1 for e in range(1, 3 * n) if e % 3 != 0]
+            # Q has been brought to the order (Y_1..Y_n, Z_1..Z_n, X_1..X_n); the constraint is Tr_{Y,Z}(X) = identity on the n input
+            # qubits X_1..X_n, i.e. the FIRST 2n factors are traced out.  (An earlier version of this reference copied the code's
+            # own list [e-1 for e in 1..3n-1 if e % 3], which is the labelling BEFORE the permutation - see DESIGN.md, false alarms /
+            # mirrored oracle.)
+            sysl = list(range(2 * n))
             cons = [("eq", oracle_ptrace(X, [2] * (3 * n), sysl) - np.identity(2 ** n)), ("psd", X)]
             return SymProgram("max", np.array([[lift(tr(dagger(Qs) @ X)).real]], dtype=object), cons)
         Y = Vm.herm(0)
@@ -541,7 +626,8 @@ def ob_clone_operator(n_states):
 
 # ---- see-saw programs of the extended game ---------------------------------------------------------------
 def ext_see_saw_task(shape, who):
-    """T1 for ExtendedNonlocalGame.__optimize_alice / __optimize_bob (referee dim 2, Bob's measurements on dimension = #answers)"""
+    """T1 for ExtendedNonlocalGame.__optimize_alice / __optimize_bob (referee dim 2; the library lets Bob measure a system whose
+    dimension is his number of answers B, so the assemblage operators act on C^2 (x) C^B and Bob's POVM elements are B x B)"""
     import sys
     A, B, X, Y = shape
     p, V = ext_game(shape, True, False)
@@ -549,8 +635,7 @@ def ext_see_saw_task(shape, who):
     cfg = {"shape_A_B_X_Y": list(shape), "optimise": who, "referee_dim": dim}
     mod = sys.modules[ENG]
     H = np.array([[1, 1], [1, -1]]) / np.sqrt(2)        # its column projectors have dyadic entries
-    bob0 = {(y, b_): (np.outer(H[:, b_], H[:, b_].conj()) if y % 2 == 0 else np.diag([1.0 if k == b_ else 0.0 for k in range(B)]))
-            for y in range(Y) for b_ in range(B)}
+    UB = H if B == 2 else np.eye(B)       # what the patched random_unitary hands back for Bob's starting measurements
     n = dim * B
     rho0 = {}
     for x in range(X):
@@ -613,7 +698,7 @@ def ext_see_saw_task(shape, who):
             cons.append(("eq", np.array([[tr(tau) - 1]], dtype=object)))
             cons.append(("psd", tau))
             for x, y, a, b_ in itertools.product(range(X), range(Y), range(A), range(B)):
-                Bm = np.outer(H[:, b_], H[:, b_].conj())
+                Bm = np.outer(UB[:, b_], UB[:, b_].conj())
                 K = np.kron(V[:, :, a, b_, x, y], Bm)
                 obj = obj + float(p[x, y]) * tr(dagger(snap(K)) @ R[(x, a)])
         else:
@@ -649,7 +734,7 @@ def obligations(tier):
         p, V = ext_game(sh, True, False)
         obs.append(SdpTask("extended_nonsignaling_value.program_is_textbook_assemblage_program", {"shape_A_B_X_Y": list(sh)},
                            (lambda p=p, V=V: ExtendedNonlocalGame(p, V).nonsignaling_value()), ref_ext_ns(sh, p, V), instance=None, value_of=lambda r: float(r)))
-    for sh in [(2, 2, 2, 2), (2, 2, 1, 2)]:
+    for sh in [(2, 2, 2, 2), (2, 2, 1, 2), (2, 3, 1, 2)]:        # the last: Bob has 3 answers, the referee dimension is 2
         obs.append(ext_see_saw_task(sh, "alice"))
         obs.append(ext_see_saw_task(sh, "bob"))
     obs.append(ob_ext_product((2, 2, 1, 2)))
@@ -690,7 +775,7 @@ def obligations(tier):
                 t.weight = 25 * n
                 obs.append(t)
     # cloning
-    for kind in ("bb84", "complex pair", "real first, complex second"):
+    for kind in ("bb84", "complex pair", "real first, complex second", "three kets not closed under conjugation"):
         st, pr = clone_states(kind)
         for n in ([1, 2] if T else [1]):
             for form, strat in (("primal", True), ("dual", False)):
@@ -699,8 +784,12 @@ def obligations(tier):
                             instance=(st, pr), value_of=lambda r: float(r), tol=5e-4)
                 t.weight = 30 * n
                 obs.append(t)
-        obs.append(AdjointTask("optimal_clone.dual_embedding_is_adjoint_of_primal_partial_trace", {"states": kind, "reps": 1},
-                               (lambda st=st, pr=pr: optimal_clone([s.copy() for s in st], list(pr), 1, True)),
-                               (lambda st=st, pr=pr: optimal_clone([s.copy() for s in st], list(pr), 1, False))))
+        for n in ([1, 2] if kind in ("bb84", "three kets not closed under conjugation") else [1]):
+            t = AdjointTask("optimal_clone.dual_embedding_is_adjoint_of_primal_partial_trace", {"states": kind, "reps": n},
+                            (lambda st=st, pr=pr, n=n: optimal_clone([s.copy() for s in st], list(pr), n, True)),
+                            (lambda st=st, pr=pr, n=n: optimal_clone([s.copy() for s in st], list(pr), n, False)))
+            t.weight = 10 if n == 1 else 400
+            t.wall_cap_s = 3000
+            obs.append(t)
     obs.append(ob_clone_operator(2))
     return obs
